@@ -100,7 +100,7 @@ _p('C06', ['r_edges', 'r_segments'],
    'compatible with the enum variants on its path; roots are compared with the documented list.',
    not_decided='behavioural equality of the collected module (execution)')
 
-_p('C16', ['r_visit'],
+_p('C16', ['r_visit', 'r_norec'],
    'Generated visitors and traversal drivers: for each of the 51 instruction structs the id-typed fields are enumerated '
    'from the type definitions and the macro-generated Visit/VisitMut dispatch (as it appears after expansion, resolved) '
    'is evaluated with default hooks; every operand must reach the hook of its kind exactly once. The drivers are checked '
@@ -240,7 +240,7 @@ _p('C09', ['r_par', 'r_nondet', 'r_arena'],
                'and thread counts (not executed)',
    needs_parallel=True)
 
-_p('C11', ['r_offsets', 'r_sorted', 'r_gates', 'r_builder'],
+_p('C11', ['r_offsets', 'r_sorted', 'r_gates', 'r_builder', 'r_emitorder'],
    'Code-offset map: offsets are recorded before the instruction / end / else is encoded; synthetic (default) locations are '
    'filtered and real ones rebased by the function start; everything ModuleFunctions::emit publishes in CodeTransform is a '
    'sum/difference of encoder measurements (no hand-computed LEB lengths, no integer literals), the tables that are binary '
